@@ -131,6 +131,7 @@ def generate(prop, rng):
                 dry=rng.random() < 0.25,
                 read_only=rng.random() < 0.1,
                 cache_odb=rng.choice([None, "A", "B"]),
+                used_as_iter=rng.random() < 0.4,
             )
         elif kind == "checkout":
             cands = [s for s in md5_stores if s != "R" and staged.get(s)]
@@ -612,7 +613,8 @@ def op_gc(h, op, n):
         odb.read_only = True
     try:
         try:
-            ret = gc(odb, used, cache_odb=expand_src, shallow=op["shallow"], dry=op["dry"])
+            used_arg = (u for u in used) if op.get("used_as_iter") else used  # any Iterable is allowed
+            ret = gc(odb, used_arg, cache_odb=expand_src, shallow=op["shallow"], dry=op["dry"])
         finally:
             odb.read_only = False
     except ObjectDBPermissionError:
